@@ -758,4 +758,98 @@ Not reachable in a build with debug assertions (the harness profile); reachable 
 theorem limb_loop_ring_degree_counterexample :
     ¬ InBounds (lens4 (16 * 1 * 1) (8 * 1 * 1) 0 0) (limbLoop 16 1 0 8 1 0 0 1) := by decide
 
+/-! ### the `span = n >> 2` + tail loops of znx_avx and fft64/reim (add, sub, negate, mul, normalization steps, conversions) -/
+
+theorem simdOperand_in_bounds (b : Nat) (wr : Bool) (n : Nat) (len : Nat → Nat) (h : n ≤ len b) : InBounds len (simdOperand b wr n) := by
+  unfold simdOperand
+  refine inb_append (inb_map (fun i hi => ?_)) (inb_ite (fun _ => inb_cons ?_ (inb_nil _)) (fun _ => inb_nil _))
+  · have hi' : i < n >>> 2 := List.mem_range.mp hi
+    rw [Nat.shiftRight_eq_div_pow] at hi'
+    simp only []
+    omega
+  · simp only []; exact h
+
+/-- **every element-wise AVX kernel, every `n`** (including `n < 4`, `n = 0`, `n` not a multiple of 4): the main loop and
+the tail touch elements `< n` only, so every operand of at least `n` elements — which the (now unconditional) equal-length
+assertions of the kernels guarantee — is accessed in bounds -/
+theorem avx_elementwise_in_bounds (name : String) (ops : List (Nat × Bool)) (hk : (name, ops) ∈ avxElementwiseKernels) (n : Nat)
+    (len : Nat → Nat) (hlen : ∀ b, b ≤ 2 → n ≤ len b) : InBounds len (simdKernel ops n) := by
+  unfold simdKernel
+  refine inb_flatMap (fun o ho => simdOperand_in_bounds o.1 o.2 n len (hlen o.1 ?_))
+  have hall : ∀ k ∈ avxElementwiseKernels, ∀ o ∈ k.2, o.1 ≤ 2 := by decide
+  exact hall (name, ops) hk o ho
+example : ("znx_normalize_middle_step_avx", [(0, true), (0, false), (1, false), (2, true), (2, false)]) ∈ avxElementwiseKernels ∧
+    avxElementwiseKernels.length = 34 ∧ simdOperand 0 true 3 = [⟨0, 0, 3, true⟩] ∧ simdOperand 1 false 6 = [⟨1, 0, 4, false⟩, ⟨1, 4, 6, false⟩] := by decide
+
+/-- the main loop + tail also covers every element `< n` of every operand exactly where the reference kernel does -/
+theorem simdOperand_covers (b : Nat) (wr : Bool) (n x : Nat) (hx : x < n) : ∃ a ∈ simdOperand b wr n, a.lo ≤ x ∧ x < a.hi := by
+  unfold simdOperand
+  by_cases h : x < (n >>> 2) <<< 2
+  · refine ⟨⟨b, 4 * (x / 4), 4 * (x / 4) + 4, wr⟩, List.mem_append_left _ (List.mem_map.mpr ⟨x / 4, ?_, rfl⟩), by simp only []; omega, by simp only []; omega⟩
+    rw [Nat.shiftRight_eq_div_pow, Nat.shiftLeft_eq] at h
+    rw [List.mem_range, Nat.shiftRight_eq_div_pow]; omega
+  · rw [Nat.shiftRight_eq_div_pow, Nat.shiftLeft_eq] at h
+    have hn : n % 4 ≠ 0 := by omega
+    refine ⟨⟨b, (n >>> 2) <<< 2, n, wr⟩, List.mem_append_right _ ?_, ?_, hx⟩
+    · simp [hn]
+    · simp only [Nat.shiftRight_eq_div_pow, Nat.shiftLeft_eq]; omega
+example : (5 : Nat) < 7 := by decide
+
+/-- `znx_automorphism_avx`: every gathered index is `< n` and every store is inside `res` (for any `inv`, any `n`
+divisible by 4 — the kernel requires a power of two `≥ 4` and falls back to the reference below 4) -/
+theorem automorphism_in_bounds (n inv : Nat) (hn : n % 4 = 0) (len : Nat → Nat) (h0 : n ≤ len 0) (h1 : n ≤ len 1) :
+    InBounds len (automorphismFoot n inv) := by
+  unfold automorphismFoot
+  refine inb_flatMap (fun i hi => ?_)
+  have hi' : i < n >>> 2 := List.mem_range.mp hi
+  rw [Nat.shiftRight_eq_div_pow] at hi'
+  refine inb_append (inb_map (fun l _ => ?_)) (inb_cons ?_ (inb_nil _))
+  · simp only [rd]
+    have hpos : 0 < n := by omega
+    have := Nat.mod_lt ((4 * i + l) * inv % (2 * n)) hpos
+    omega
+  · simp only [wt]; omega
+example : InBounds (fun _ => 8) (automorphismFoot 8 13) := by decide
+
+/-- `znx_switch_ring_avx`, both directions: strided gathers / scatters stay inside the longer operand -/
+theorem switch_ring_in_bounds (nIn nOut : Nat) (len : Nat → Nat) (h0 : nOut ≤ len 0) (h1 : nIn ≤ len 1) :
+    (nOut % 4 = 0 → nOut ∣ nIn → 0 < nOut → nOut ≤ nIn → InBounds len (switchRingDown nIn nOut)) ∧
+    (nIn % 4 = 0 → nIn ∣ nOut → 0 < nIn → nIn ≤ nOut → InBounds len (switchRingUp nIn nOut)) := by
+  constructor
+  · intro h4 hd hpos hle
+    obtain ⟨g, rfl⟩ := hd
+    unfold switchRingDown
+    refine inb_flatMap (fun i hi => ?_)
+    have hi' : i < nOut >>> 2 := List.mem_range.mp hi
+    rw [Nat.shiftRight_eq_div_pow] at hi'
+    refine inb_append (inb_map (fun l hl => ?_)) (inb_cons (by simp only [wt]; omega) (inb_nil _))
+    have hl' : l < 4 := List.mem_range.mp hl
+    simp only [rd]
+    rw [Nat.mul_div_cancel_left _ hpos]
+    have k : (4 * i + l) * g + g ≤ nOut * g := by
+      have := Nat.mul_le_mul_right g (show 4 * i + l + 1 ≤ nOut by omega)
+      rwa [Nat.add_mul, Nat.one_mul] at this
+    by_cases hg : g = 0
+    · subst hg; simp at hle; omega
+    · have : 1 ≤ g := by omega
+      omega
+  · intro h4 hd hpos hle
+    obtain ⟨g, rfl⟩ := hd
+    unfold switchRingUp
+    refine inb_flatMap (fun i hi => ?_)
+    have hi' : i < nIn >>> 2 := List.mem_range.mp hi
+    rw [Nat.shiftRight_eq_div_pow] at hi'
+    refine inb_cons (by simp only [rd]; omega) (inb_map (fun l hl => ?_))
+    have hl' : l < 4 := List.mem_range.mp hl
+    simp only [wt]
+    rw [Nat.mul_div_cancel_left _ hpos]
+    have k : (4 * i + l) * g + g ≤ nIn * g := by
+      have := Nat.mul_le_mul_right g (show 4 * i + l + 1 ≤ nIn by omega)
+      rwa [Nat.add_mul, Nat.one_mul] at this
+    by_cases hg : g = 0
+    · subst hg; simp at hle; omega
+    · have : 1 ≤ g := by omega
+      omega
+example : InBounds (fun b => if b = 0 then 4 else 16) (switchRingDown 16 4) ∧ InBounds (fun b => if b = 0 then 16 else 4) (switchRingUp 4 16) := by decide
+
 end C17
